@@ -199,6 +199,12 @@ impl HalfConnection {
     }
 
     pub fn flush(&mut self, sink: &mut impl FrameSink) {
+        // Bring the flush allocation up to date first, so that whatever was earned since the last
+        // step is subject to the allocation limit before it is spent. Otherwise the time of a long
+        // pause is credited in full after a frame has already been sent on the old allocation, and
+        // a second frame follows immediately.
+        self.fill_flush_alloc(time::Instant::now());
+
         // Send as many frames as possible
         self.emit_frames(self.now_ms, self.rtt_ms, self.rto_ms, self.flush_id, sink);
     }
